@@ -65,6 +65,19 @@ NEEDS_D = {
  "C18": ("C18 (same idea as c08c)", "Rewind::poll_read tops up from the inner stream after replaying the prefix and returns the inner result", "read buffer larger than the remaining prefix and no data ready on the inner stream: the prefix bytes already copied are lost with the Pending"),
 }
 
+NEEDS_E = {
+ "C06": ("C06", "UriKey stores HTTPS for https and HTTP for every other scheme (wss forgotten)", "a request with scheme ws/wss (or a custom scheme) and an http:// request to the same host and explicit port through one pooled client: they share idle list and waiters"),
+ "C08": ("C08", "on EOF the sniffer only breaks and no longer falls back to HTTP/1 (version starts as HTTP/2)", "the client's whole stream is 0..23 bytes of the preface (or empty) followed by EOF: served as HTTP/2"),
+ "C10": ("C10", "process_all drops the candidate it has just popped when a running attempt fails while candidates are queued", "initial concurrency below the number of candidates and an attempt failing while one is queued: a candidate that would accept is never tried"),
+ "C11": ("C11", "join_next_with_timeout keeps the stagger delay only if delay <= timeout; with timeout None the Option comparison is false", "delay = Some(_) with timeout = None, a candidate queued behind a slow or hanging attempt: it is never started by the stagger"),
+ "C12": ("C12", "TlsTransportWrapper::call takes the TLS server name from a caller-supplied Host header", "https/wss request whose Host header names another host than the URI: SNI and certificate check use the header name"),
+ "C13": ("C13", "check_http2_request removes only the first connection-specific header it finds", "HTTP/2 connection and a request carrying two or more of connection / proxy-connection / keep-alive / transfer-encoding / upgrade"),
+ "C16": ("C16", "SocketAddrs::set_port rewrites only addresses whose port is 0", "a resolver answer carrying a non-zero port different from the URI port"),
+ "C17": ("C17", "origin_form re-parses the path-and-query text with expect", "HTTP/1 connection, non-CONNECT request, absolute URI with an empty path directly followed by a query (http://host?x=1): panic in the caller's task"),
+ "C19": ("C19", "TimeoutFuture arms its timer at the first poll instead of when the request is issued", "a gap between Service::call and the first poll of the future, inner unresolved at the deadline"),
+ "C20": ("C20", "host selection uses the URI authority first for every version", "HTTP/1.x request in absolute form whose authority differs from its Host header"),
+}
+
 import sys
 ROUND = sys.argv[1] if len(sys.argv) > 1 else ""
 if ROUND == "b":
@@ -76,14 +89,17 @@ if ROUND == "c":
 if ROUND == "d":
     NEEDS = NEEDS_D
     SEEDROOT = '/tmp/seed4'
+if ROUND == "e":
+    NEEDS = NEEDS_E
+    SEEDROOT = '/tmp/seed5'
 confirm = {}
-for f in ([SEEDROOT + '/confirm.log'] if ROUND in ('c','d') else glob.glob('/tmp/seed/r2_confirm*.log') if ROUND == 'b' else glob.glob('/tmp/seed/confirm_*.log') + glob.glob('/tmp/seed/confirm_single_*.log')):
+for f in ([SEEDROOT + '/confirm.log'] if ROUND in ('c','d','e') else glob.glob('/tmp/seed/r2_confirm*.log') if ROUND == 'b' else glob.glob('/tmp/seed/confirm_*.log') + glob.glob('/tmp/seed/confirm_single_*.log')):
     for l in open(f):
         m = re.match(r'CONFIRM (C\d+): suite (with|without) change \(incl\. demo\): (.*)', l)
         if m:
             confirm.setdefault(m.group(1), {})[m.group(2)] = m.group(3).strip()
 evals = {}
-for f in ([SEEDROOT + '/eval.log'] if ROUND in ('c','d') else sorted(glob.glob('/tmp/seed/r2_eval*.log')) if ROUND == 'b' else sorted(glob.glob('/tmp/seed/eval_*.log'))):
+for f in ([SEEDROOT + '/eval.log'] if ROUND in ('c','d','e') else sorted(glob.glob('/tmp/seed/r2_eval*.log')) if ROUND == 'b' else sorted(glob.glob('/tmp/seed/eval_*.log'))):
     for l in open(f):
         m = re.match(r'(C\d+)\.out/patch\.diff: caught by:(.*)\| machinery:(.*)\| silent:(.*)', l)
         if m:
@@ -125,7 +141,7 @@ for sid, (prop, change, needs) in sorted(NEEDS.items()):
 
 if ROUND:
     with open('/verif/seeded/README.md', 'a') as f:
-        f.write(("\nRound 4 (pool, server and adapter properties again; both earlier ideas were named and had to be avoided):\n\n|" if ROUND == "d" else "\nRound 3 (properties that had one seed so far; the known idea was named and had to be avoided):\n\n|" if ROUND == "c" else "\nRound 2 (sub-agents were told which kind of defect already existed for the property and asked for a different one):\n\n|") + " seed | aimed at | change | needs | caught by (quick tier) |\n|---|---|---|---|---|\n")
+        f.write(("\nRound 5 (third change for the input- and time-quantified properties; all earlier ideas named):\n\n|" if ROUND == "e" else "\nRound 4 (pool, server and adapter properties again; both earlier ideas were named and had to be avoided):\n\n|" if ROUND == "d" else "\nRound 3 (properties that had one seed so far; the known idea was named and had to be avoided):\n\n|" if ROUND == "c" else "\nRound 2 (sub-agents were told which kind of defect already existed for the property and asked for a different one):\n\n|") + " seed | aimed at | change | needs | caught by (quick tier) |\n|---|---|---|---|---|\n")
         for sid, prop, change, needs, caught in rows:
             f.write(f"| {sid.lower()} | {prop} | {change} | {needs} | {' '.join(caught) if caught else '—'} |\n")
     print("kept", len(rows)); sys.exit(0)
